@@ -54,6 +54,35 @@ class _Slot:
             self.fh.close()
 
 
+class _BudgetFactor:
+    """how much slower than on an idle machine a trivial fork pool cycle is at the moment (>= 1, capped); measured once per
+    check process and again for every confirmation run of a suspected hang, which also gets three times the budget"""
+    IDLE = 0.15
+
+    def __init__(self):
+        self.value = None
+        self.extra = 1.0
+        self.busy = False
+
+    def measure(self):
+        self.busy = True
+        try:
+            cal = calibrate(('fork',))
+            self.value = max(1.0, min(8.0, cal.get('fork', self.IDLE) / self.IDLE))
+        finally:
+            self.busy = False
+
+    def get(self):
+        if self.busy:
+            return 1.0
+        if self.value is None:
+            self.measure()
+        return self.value * self.extra
+
+
+budget_factor = _BudgetFactor()
+
+
 def run_one(scen, rundir, hook=True):
     with _Slot():
         return _run_one(scen, rundir, hook)
@@ -65,6 +94,11 @@ def _run_one(scen, rundir, hook=True):
     os.makedirs(evdir, exist_ok=True)
     spath = os.path.join(rundir, 'scenario.json')
     rpath = os.path.join(rundir, 'result.json')
+    scen_as_generated = scen
+    if not str(scen.get('id', '')).startswith('cal_'):
+        # watchdog budgets are stated for an idle machine: stretch them by how slow a trivial pool life cycle is right now
+        # (a busy machine is not a hang); the oracles see the scenario as generated
+        scen = dict(scen, budget=int(scen.get('budget', 60) * budget_factor.get()), budget_stated=scen.get('budget', 60))
     json.dump(scen, open(spath, 'w'))
     env = dict(os.environ)
     env.update(PYTHONPATH=f"{REPO}:{HARNESS}", PYTHONHASHSEED='0', MPIRE_VERIF_DIR=evdir,
@@ -99,7 +133,7 @@ def _run_one(scen, rundir, hook=True):
         except subprocess.TimeoutExpired:
             pass
     wall = time.time() - t0
-    rec = {'scenario': scen, 'rc': rc, 'wall': wall, 'dir': rundir}
+    rec = {'scenario': scen_as_generated, 'rc': rc, 'wall': wall, 'dir': rundir, 'budget_used': budget}
     try:
         rec['result'] = json.load(open(rpath))
     except (OSError, ValueError):
@@ -164,6 +198,20 @@ def load_events(evdir):
 
 
 def run_many(scens, tag, jobs=10, hook=True, keep=False):
+    if tag.endswith('_re') or tag == 'replay':
+        # confirmation of a suspected hang / oracle failure: fresh load measurement, three times the budget
+        budget_factor.measure()
+        budget_factor.extra = 3.0
+        try:
+            return _run_many(scens, tag, jobs, hook, keep)
+        finally:
+            budget_factor.extra = 1.0
+    return _run_many(scens, tag, jobs, hook, keep)
+
+
+def _run_many(scens, tag, jobs=10, hook=True, keep=False):
+    if budget_factor.value is None and not tag.startswith('calibrate_'):
+        budget_factor.measure()          # here, single-threaded, not from the worker threads below
     base = os.path.join(WORK, 'runs', tag)
     shutil.rmtree(base, ignore_errors=True)
     os.makedirs(base, exist_ok=True)
